@@ -2,6 +2,8 @@ SPECIFICATION Spec
 CONSTANTS
   MaxDet = 2
   EqualLabels = TRUE
+  EmitMod = 5
+  EmitRes = 0
   Emit = TRUE
 INVARIANT EmitInv
 
